@@ -65,10 +65,47 @@ def with_via(rng, lines):
     return out
 
 
+def gen_references(rng):
+    """Reads through ComponentReference / ProcessorReference interleaved with World calls that change what
+    the reference must answer: a subtype component first, then one of the exact type (which has priority),
+    removals, replacements, the same for processors."""
+    lines = ['class 0 kind=c bases=- names=- kw=- prio=0', 'class 1 kind=c bases=0 names=- kw=- prio=0',
+             'class 2 kind=c bases=1 names=- kw=- prio=0', 'class 3 kind=ctrl bases=- names=- kw=- prio=0',
+             'class 4 kind=p bases=- names=- kw=- prio=0', 'class 5 kind=p bases=4 names=- kw=- prio=1']
+    objs = {0: 0, 1: 1, 2: 2, 3: 0, 4: 1, 5: 3, 6: 4, 7: 5, 8: 5}
+    lines += [f'obj {o} class={c}' for o, c in objs.items()]
+    lines.append('ents ' + ','.join(map(str, gen_world.ENTS)))
+    ops = ['create auto 5', 'snap']
+    pool_c, pool_p = [0, 1, 2, 3, 4], [6, 7, 8]
+    for _ in range(rng.randint(4, 10)):
+        k = rng.random()
+        if k < 0.35:
+            ops.append(f'add 1 {rng.choice(pool_c)}')
+        elif k < 0.5:
+            ops.append(f'remove 1 {rng.choice([0, 1, 2])}')
+        elif k < 0.65:
+            ops.append(f'addproc {rng.choice(pool_p)} -')
+        elif k < 0.72:
+            ops.append(f'rmproc {rng.choice([4, 5])}')
+        else:
+            ops.append(f'via 5 {rng.choice(["add", "cset"])} {rng.choice(pool_c)}')
+        ops.append('snap')
+        for _ in range(rng.randint(1, 3)):
+            kind = rng.choice(['cget', 'cget', 'get', 'has', 'pget', 'pget', 'comps'])
+            arg = '' if kind == 'comps' else str(rng.choice([4, 5]) if kind == 'pget' else rng.choice([0, 1, 2]))
+            ops.append(f'via 5 {kind} {arg}'.rstrip())
+            ops.append('snap')
+    return lines + ['op ' + o for o in ops]
+
+
 def generate(rng, tier):
     n = 250 if tier == 'quick' else 5000
     made = 0
     while made < n:
+        if made % 5 == 4:
+            made += 1
+            yield gen_references(rng)
+            continue
         if made % 3 == 2:
             # frames: OnUpdateProcessor subclasses, on_update listeners (some raise on a scripted call and
             # the caller goes on calling process()), dispatch toggles
@@ -96,6 +133,10 @@ def oracle(lines, obs):
         twin, _ = core.run_impl_guarded(impl_world, ['mode direct'] + list(lines))
     except core.Timeout:
         twin = ['hang']
+    lost = [o for o in obs if o.startswith('ctlworld ') and o.endswith(' 0')]
+    if lost:
+        return [{'sig': 'C19:controller-lost-its-world', 'what': f'after the program dropped its own reference to '
+                 f'the world an attached controller no longer knows it: {lost[0]}'}]
     a, b = project(obs), project(twin)
     if a == b:
         # the frame clause: each process() makes every OnUpdateProcessor relay dt exactly once to every
@@ -155,17 +196,97 @@ def gen_proto(rng):
     return lines
 
 
+def gen_proto_lazy(rng):
+    """prototypes whose init methods / factories / component constructors (and whose consumer, between
+    two next() calls) change what is in charge of the types that come later: init_methods entries set
+    and deleted in place, init_methods / init_prefix / component_types / init functions rebound on the
+    instance and on classes; consumed by list(), next() by next(), two iterators of one instance"""
+    lines = [ln for ln in gen_proto(rng) if not ln.startswith('iter ')]
+    ncls = sum(1 for ln in lines if ln.startswith('pclass '))
+    flabels = sorted({p.split(':')[1] for ln in lines if ln.startswith('pclass ')
+                      for p in ln.split()[5][3:].split(',') if ':' in p})
+    glabels = sorted({p.split(':')[1] for ln in lines if ln.startswith('pclass ')
+                      for p in ln.split()[6][8:].split(',') if ':' in p})
+    fresh = [0]
+
+    def new(prefix):
+        fresh[0] += 1
+        lab = f'{prefix}{fresh[0]}'
+        (flabels if prefix == 'nf' else glabels).append(lab)
+        return lab
+
+    def pairs():
+        return ','.join(f'{t}:{new("nf")}' for t in rng.sample(range(4), rng.randint(0, 2))) or '-'
+
+    def tids():
+        return ','.join(str(rng.randrange(4)) for _ in range(rng.randint(0, 4))) or '-'
+
+    def name():
+        return rng.choice(['init_', 'make', 'init', '']) + rng.choice(['A', 'B', 'C'])
+
+    def pfx():
+        return 'q' + rng.choice(['init_', 'make', '', 'init'])
+
+    def op():
+        c = rng.randrange(ncls)
+        return rng.choice([
+            lambda: f'im-set {rng.randrange(4)} {new("nf")}', lambda: f'im-set {rng.randrange(4)} {new("nf")}',
+            lambda: f'im-del {rng.randrange(4)}', lambda: f'im-del {rng.randrange(4)}',
+            lambda: f'inst-im {pairs()}', lambda: f'inst-prefix {pfx()}',
+            lambda: f'inst-meth {name()} {new("ng")}', lambda: f'inst-meth-del {name()}',
+            lambda: f'inst-types {tids()}',
+            lambda: f'cls-im {c} {pairs()}', lambda: f'cls-prefix {c} {pfx()}',
+            lambda: f'cls-meth {c} {name()} {new("ng")}', lambda: f'cls-meth-del {c} {name()}',
+            lambda: f'cls-types {c} {tids()}'])()
+
+    def ops():
+        return ' ; '.join(op() for _ in range(rng.randint(1, 3)))
+    body = []
+    for k in range(rng.randint(0, 2)):
+        body.append(f'ceffect {k} : {ops()}')
+    nce = len(body)
+    for pid in range(ncls):
+        if rng.random() < 0.3:
+            body.append(f'iter {pid}')
+            continue
+        toks, made = [], set()
+        for _ in range(rng.randint(2, 12)):
+            k = rng.random()
+            if k < 0.2 or not made:
+                it = rng.choice('AB')
+                toks.append(it)
+                made.add(it)
+            elif k < 0.75:
+                toks.append(rng.choice(sorted(made)).lower())
+            elif k < 0.85 and nce:
+                toks.append(f'e{rng.randrange(nce)}')
+            elif k < 0.92:
+                toks.append('L')
+            else:
+                toks.append(rng.choice(sorted(made)).lower())
+        body.append(f'run {pid} ' + ' '.join(toks))
+    # the builders that act: labels known now (the new ones can act in turn)
+    effects = {}
+    for _ in range(rng.randint(1, 5)):
+        src = rng.choice(['default', 'default'] + [f'im:{f}' for f in flabels] + [f'method:{g}' for g in glabels])
+        effects[(rng.randrange(4), src)] = ops()
+    return lines + [f'effect {t} {src} : {o}' for (t, src), o in effects.items()] + body
+
+
 def extra_checks(ctx):
     rng = random.Random(ctx.seed * 7907 + 19)
     n = 300 if ctx.tier == 'quick' else 6000
-    scen = [gen_proto(rng) for _ in range(n)]
+    scen = [gen_proto(rng) for _ in range(n)] + [gen_proto_lazy(rng) for _ in range(n)]
+    proto_corpus = sorted((core.VERIF / 'corpus' / 'C19' / 'proto').glob('*.scn'))
+    scen = [[ln for ln in f.read_text().splitlines() if ln.strip() and not ln.startswith('#')]
+            for f in proto_corpus] + scen
     impl = [impl_logic.run_impl(s)[0] for s in scen]
     model = core.run_driver('logic', scen)
     nontriv = set()
     for s, io, mo in zip(scen, impl, model):
         if any(o.startswith('bad-op') for o in mo):
             raise core.MachineryError(f'logic model rejected {s}')
-        built = [o for o in io if o.startswith('built ')]
+        built = [o for o in io if o.startswith(('built ', 'stop '))]
         if built:
             nontriv.add(core.scen_hash(s))
         bad_shape = [o for o in io if o.startswith('shape ') and o != 'shape ok']
@@ -177,9 +298,12 @@ def extra_checks(ctx):
             ctx.violations.append({
                 'sig': 'C19:prototype-source', 'shrink': False, 'scenario': s,
                 'what': f'prototype component #{k}: required `{mo[k] if k < len(mo) else "<end>"}` '
-                        f'(init_methods entry, else prefixed method, else default constructor), implementation '
+                        f'(init_methods entry, else prefixed method, else default constructor: whichever is in '
+                        f'charge of the type at the moment the component is built), implementation '
                         f'`{built[k] if k < len(built) else "<end>"}`'})
-    ctx.cov['prototype_scenarios'] = n
+    ctx.cov['prototype_scenarios'] = len(scen)
+    ctx.cov['prototype_effect_lines'] = sum(1 for sc in scen for ln in sc if ln.startswith(('effect ', 'ceffect ')))
+    ctx.cov['prototype_stepwise_runs'] = sum(1 for sc in scen for ln in sc if ln.startswith('run '))
     ctx.cov['prototype_nontrivial'] = len(nontriv)
     ctx.cov['prototype_sample'] = {'scenario': scen[0], 'impl_obs': impl[0]}
 
@@ -190,7 +314,8 @@ def replay(lines):
         mo = core.run_driver('logic', [lines])[0]
         print('--- implementation'); print('\n'.join(io))
         print('--- model'); print('\n'.join(mo))
-        ok = [o for o in io if o.startswith('built ')] == mo and all(o == 'shape ok' for o in io if o.startswith('shape'))
+        ok = [o for o in io if o.startswith(('built ', 'stop '))] == mo and all(
+            o == 'shape ok' for o in io if o.startswith('shape'))
         if not ok:
             print('VIOLATION property=C19 replay=<given file>')
         return 0 if ok else 1
